@@ -3520,6 +3520,9 @@ class RoConstr:
             sup_model.st(item)
 
         self.support = sup_model.do_math(primal=False, obj=False)
+        # the random variables the set knows: columns declared later (and the
+        # auxiliary columns of this formulation) are not among them
+        self.support.num_rand = sup_model.vars[-1].last
 
         # the constraint may already be part of a formulated model
         top = self.dec_model.top
@@ -3565,6 +3568,15 @@ class RoConstr:
             extra = self.raffine[:, num_rand:]
             if extra.linear.nnz > 0 or np.any(extra.const):
                 bounds.append(extra == 0)
+
+        known = getattr(support, 'num_rand', num_rand)
+        if known < num_rand:
+            # rows of the support beyond the random variables it was written
+            # for belong to its auxiliary columns: a random variable declared
+            # later that took such a column number is unrestricted as well
+            stray = self.raffine[:, known:num_rand]
+            if stray.linear.nnz > 0 or np.any(stray.const):
+                bounds.append(stray == 0)
 
         if num_rand == support.linear.shape[0]:
             constr_list = [constr1, constr2]
